@@ -56,6 +56,9 @@ RULE = ("random TFIM graphs (2..6 spins, chain/ring/chord, J of both signs, dyad
         "all-time maximum while the cutoff must stay): clone() of both samplers, serde round trip of the sampler with its rng (both), the RNG-less "
         "SerializeQmcGraph + into_qmc(rng) form (Ising); kind `copy`, oracle: the copy reports the same cutoff, container, occupied slots and n as "
         "the original; both the copy and the original keep stepping under the step oracles. "
+        "LONG-STRING stream: 8 spins at beta 180 (quick) / 300, 500, 700 (thorough) started from cutoff 1..3 (n up to ~4.7k / ~18k operators), Ising and "
+        "generic sampler, Metropolis and heat-bath, timestep and single_diagonal_step / diagonal_update: `step` cases only, oracle incl. the exact "
+        "rule new = max(old, n + n/2 + 1) (also added to the per-step oracle of the small systems). "
         "After every real step one `step` case (prev cutoff, prev container length, n -> cutoff, container length) and one `sweep` "
         "case (slot occupancy before/after) are compared with the model rule. Non-trivial = the cutoff grew or n > 0 "
         "(tempering: replicas had different cutoffs); distinct = distinct case line.")
